@@ -7,7 +7,7 @@ SPEC = {
     "technique": "explicit-state BFS to fixpoint over the implementation with lock-step reference model",
     "rule": ("per configuration (datagram of n<=4 (quick) / 5 (thorough) 8-byte units + tail, protocol UDP/ICMP/TCP/unknown, EVERY "
              "composition into >= 2 fragments, optional second datagram differing in id / source / direction / destination, bare IP or "
-             "Ethernet root; the first fragment carries a header that differs from the other fragments' (TTL, TOS, the option only there) so that \"header = first fragment's\" is observable whichever fragment completes; plus the LARGE family: payload sizes at the top of the quantified range (total length 65535, 65534, 65532, last 8-byte "
+             "Ethernet root (also with every frame zero-padded to the 60-byte minimum behind the IP total length, as captured frames are); the first fragment carries a header that differs from the other fragments' (TTL, TOS, the option only there) so that \"header = first fragment's\" is observable whichever fragment completes; plus the LARGE family: payload sizes at the top of the quantified range (total length 65535, 65534, 65532, last 8-byte "
              "boundary, 32 KiB + 13, with and without IP options) cut at every non-empty subset of {8, 32768, last boundary}) a BFS to fixpoint over the real IPv4Reassembler (copied per state) x reference reassembler; events = every "
              "fragment of either datagram (re-sendable: duplicates, also after completion), an unfragmented packet (with DF, the reserved flag, both, and with the identification and addresses of the datagram being reassembled), a non-IP packet, an "
              "MF|DF stray fragment; on every transition: status = reference status; on REASSEMBLED: header = first fragment's with "
